@@ -19,8 +19,8 @@ for name in sorted(os.listdir(S)):
             verdicts.append("%s: %s%s" % (p, r["verdict"].lower(), (" (`%s`)" % sig[:70]) if sig and r["verdict"] == "DETECTED" else ""))
         else:
             verdicts.append("%s: not run" % p)
-    what = re.sub(r"\s+", " ", m.get("what_changed", ""))[:230].replace("|", "/")
-    need = re.sub(r"\s+", " ", m.get("needs_to_manifest", ""))[:200].replace("|", "/")
+    what = re.sub(r"\s+", " ", m.get("what_changed", ""))[:160].replace("|", "/")
+    need = re.sub(r"\s+", " ", m.get("needs_to_manifest", ""))[:130].replace("|", "/")
     rows.append("| %s | %s | %s | %s |" % (name, what, need, "; ".join(verdicts)))
 nd = sum(1 for k, v in res.items() if v["verdict"] == "DETECTED")
 names = {k.split(":")[0] for k in res}
